@@ -105,6 +105,8 @@ def analyse(lines, out):
 def classify_divergence(kind, rest):
     """A divergence that is by itself a failure of mgmt_effect_exact: the tables after the command are not the ones the
     (proved) effect function gives, or accept/reject differs. Other response differences stay plain divergences."""
+    if kind.startswith("ref-"):
+        return "refmodel"       # the implementation departs from the model with the constants the theorems were proved for
     if kind.startswith("tab-") or kind.startswith("init-"):
         return "effect"
     if kind == "resp":
@@ -114,6 +116,8 @@ def classify_divergence(kind, rest):
             acc = lambda s: s.startswith("ctl 200 ")
             if acc(a) != acc(b):
                 return "effect"
+            if acc(a) and acc(b):
+                return "effect"     # accepted, but the echoed parameters (what was done) differ from the described effect
             if a.startswith("data ") or b.startswith("data "):
                 return "dataset"
     return None
@@ -149,6 +153,36 @@ def shrink(R, runner, ops, which, budget=40):
     return head + cmds
 
 
+def reference_runner(R):
+    """Runner built from the current Model.v/Spec.v but with the REFERENCE constants (coq/Mgmt/GenConsts.reference = the
+    translated constants for which every theorem was last proved). Used only to search for a concrete failing input
+    when the theorems no longer check against the freshly translated constants."""
+    import glob
+    ref = os.path.join(vlib.VERIF, "coq", FAM, "GenConsts.reference")
+    d = os.path.join(R.work, "refcoq", FAM)
+    ml = os.path.join(R.work, "refcoq", "ml")
+    shutil.rmtree(os.path.join(R.work, "refcoq"), ignore_errors=True)
+    os.makedirs(d); os.makedirs(ml)
+    for f in ("Model.v", "Spec.v", "Extract.v"):
+        shutil.copy(os.path.join(vlib.VERIF, "coq", FAM, f), d)
+    shutil.copy(ref, os.path.join(d, "GenConsts.v"))
+    flags = ["-Q", os.path.join(vlib.COQ, "Base"), "Base", "-Q", d, "Mgmt"]
+    for f in ("GenConsts.v", "Model.v", "Spec.v"):
+        rc, out = vlib.sh(["coqc"] + flags + [os.path.join(d, f)], cwd=d, timeout=600)
+        if rc != 0:
+            return None, out
+    rc, out = vlib.sh(["coqc"] + flags + ["-o", os.path.join(ml, "Extract.vo"), os.path.join(d, "Extract.v")], cwd=ml, timeout=600)
+    if rc != 0:
+        return None, out
+    for dsrc in glob.glob(os.path.join(vlib.VERIF, "runner", FAM, "*.ml")):
+        shutil.copy(dsrc, ml)
+    rc, order = vlib.sh("ocamlfind ocamldep -sort *.ml *.mli 2>/dev/null || ocamlfind ocamldep -sort *.ml", cwd=ml, timeout=120)
+    rc, out = vlib.sh("ocamlfind ocamlopt -w -a -package str,unix -linkpkg %s -o runner" % " ".join(order.split()), cwd=ml, timeout=600)
+    if rc != 0:
+        return None, out
+    return os.path.join(ml, "runner"), ""
+
+
 def run(R):
     R.assumptions += [
         "Coq 8.16.1 kernel; vm_compute only for facts about the translated constants, refutation witnesses and the non-vacuity Example",
@@ -165,10 +199,18 @@ def run(R):
     ]
     R.coverage["trusted_base"] = ["Coq kernel 8.16.1", "Coq extraction + OCaml 4.13.1", "runner/Mgmt/driver.ml", "translators/mgmt/main.go (go/ast)",
                                   "harness/mgmt (generator, fake forwarding thread, recording transport hooks)", "go1.26 toolchain"]
+    proved = False
     if translate(R):
-        R.prove(FAM)
+        proved = R.prove(FAM)
     else:
         R.coverage["obligations"] += 1
+    try:
+        same = open(os.path.join(vlib.COQ, FAM, "GenConsts.v")).read() == open(os.path.join(vlib.VERIF, "coq", FAM, "GenConsts.reference")).read()
+    except OSError:
+        same = False
+    R.coverage["translated_constants_equal_reference"] = same
+    if not same:
+        R.notes.append("translated constants differ from coq/Mgmt/GenConsts.reference (the constants the theorems were last proved for)")
     if not R.quick:
         R.coqchk(FAM, ["Mgmt.Proofs"])
     ok, runner, log = vlib.extract_build(FAM)
@@ -195,6 +237,17 @@ def run(R):
         R.proof_problems.append("runner did not finish: " + rout[-300:])
     for b in bad[:5]:
         R.proof_problems.append("runner: " + b)
+
+    # ---- the theorems do not check against the current constants: search a failing input with the proved (reference) model
+    if not proved and not same:
+        ref_runner, log = reference_runner(R)
+        if ref_runner is None:
+            R.log("reference runner could not be built: " + log[-400:])
+        else:
+            o2, d2, _, _ = analyse(lines, run_runner(ref_runner, trace))
+            R.log("reference-model replay: %d divergences" % len(d2))
+            for (ln, kind, rest) in d2:
+                diverge.append((ln, "ref-" + kind, rest))
 
     # ---- coverage
     cases = split_cases(lines)
@@ -289,6 +342,7 @@ def run(R):
             "face-unusable": "after the command a face can no longer send (or its send path panics)",
             "cs-capacity": "an accepted cs/config leaves a negative Content Store capacity",
             "effect": "accepted command's table effect / accept-reject decision differs from the proved effect function",
+            "refmodel": "response or table effect differs from the proved model (status code, default value, bound or guard changed in the source)",
         }.get(info["which"], info["which"])
         R.oracle_failure(sig, what + " [" + info["detail"][:300] + "]",
                          dict(command=info["cmdline"][:3000], occurrences=info["count"], ops=ops,
